@@ -29,6 +29,28 @@ func checkC14Cfg(c c14CfgCase) verdict {
 	if (e1 == nil) != want || (e2 == nil) != want || (e3 == nil) != want {
 		return bad(true, labels, "suite %+v: usable by the rule = %v, but SuiteConfig.Validate=%v NewSuite=%v RawSuite.Validate=%v", c.Cfg, want, e1, e2, e3)
 	}
+	// the same configuration reached by CHANGING a suite value that a constructor once accepted
+	// (RawSuite is a struct with exported fields): usability is a property of the value as it is now
+	twin := otp.SuiteConfig{Raw: "x", Hash: otp.SHA1, Digits: 6, Challenge: otp.ChallengeNumeric08, IncludeChallenge: true}
+	for _, mk := range []func() (otp.Suite, error){
+		func() (otp.Suite, error) { return otp.NewSuite(twin) },
+		func() (otp.Suite, error) { return otp.NewRawSuite("OCRA-1:HOTP-SHA1-6:QN08") },
+	} {
+		if su, err := mk(); err == nil {
+			if rs, isRaw := su.(otp.RawSuite); isRaw {
+				rs.SuiteConfig = lc
+				if e := rs.Validate(); (e == nil) != want {
+					return bad(true, labels, "a constructed RawSuite changed to %+v: Validate() = %v, usable by the rule = %v", c.Cfg, e, want)
+				}
+				if !want {
+					in2 := otp.OCRAInput{Counter: make([]byte, 8), Challenge: make([]byte, 16), Password: make([]byte, ref.PLen(maxI(c.Cfg.PHash, 1))), Timestamp: make([]byte, 8)}
+					if code, gerr := otp.GenerateOCRA("MFRGGZDFMZTWQ2LK", rs, in2); gerr == nil {
+						return bad(true, labels, "GenerateOCRA produced %q for a constructed RawSuite changed to the unusable %+v", code, c.Cfg)
+					}
+				}
+			}
+		}
+	}
 	// generation and validation must agree with the rule as well (the suite check gates all table
 	// indexing): a usable suite generates and validates with an admissible input, an unusable one is
 	// refused — whatever was used before (all configurations here share one suite string)
